@@ -175,7 +175,8 @@ class Part(object):
         elif len(tss) == 1:
             # If there is only a single time signature
             tss = np.array([tss[0, :], tss[0, :]])
-        elif tss[0, 0] > self.first_point.t:
+
+        if self.first_point is not None and tss[0, 0] > self.first_point.t:
             tss = np.vstack(
                 ((self.first_point.t, tss[0, 1], tss[0, 2], tss[0, 3]), tss)
             )
